@@ -626,6 +626,7 @@ def run(ctx: Ctx):
 
 _F = "urwid/widget/scrollable.py"
 MUTANTS = [
+    Mut("twin-scrollbar-ratio-min-args-swapped", "urwid/widget/scrollable.py", "ScrollBar.render", "top_weight = min(1.0, float(pos) / max(1, posmax))", "top_weight = min(float(pos) / max(1, posmax), 1.0)", twin=True),
     Mut("twin-bar-width-floor-args-swapped", "urwid/widget/scrollable.py", "ScrollBar.scrollbar_width", "self._scrollbar_width = max(1, int(width))", "self._scrollbar_width = max(int(width), 1)", twin=True),
     Mut("scrollbar-ratio-unclamped", "urwid/widget/scrollable.py", "ScrollBar.render", "top_weight = min(1.0, float(pos) / max(1, posmax))", "top_weight = float(pos) / max(1, posmax)", "PAIR|widget.scrollable.ScrollBar.render|posmax: position ratio not limited to 1"),
     Mut("scrollable-fit-return-without-forward-flag", "urwid/widget/scrollable.py", "Scrollable.render", "            self._forward_keypress = canv.cursor is not None or ow.selectable()\n", "", "PASS|widget.scrollable.Scrollable.render|return without storing _forward_keypress"),
